@@ -31,6 +31,7 @@ import (
 	"github.com/emitter-io/emitter/internal/message"
 	"github.com/emitter-io/emitter/internal/network/mqtt"
 	"github.com/emitter-io/emitter/internal/provider/storage"
+	"github.com/emitter-io/emitter/internal/security"
 	"github.com/emitter-io/emitter/internal/service/cluster"
 	"github.com/emitter-io/emitter/internal/zverif/vlib"
 	"github.com/golang/snappy"
@@ -234,6 +235,17 @@ func step(w []string, line string) string {
 				return "err"
 			}
 			return fmt.Sprintf("ok t=%d used=%d", m.Type(), len(data)-r.Len())
+		})
+	case "chan":
+		// the topic of every SUBSCRIBE / UNSUBSCRIBE / PUBLISH / last will and of every request goes
+		// through ParseChannel before its key is looked at: it must terminate, with options bounded by the text
+		data := vlib.UnHex(w[1])
+		return vlib.Guard(func() string {
+			c := security.ParseChannel(data)
+			if c.ChannelType == security.ChannelInvalid {
+				return "type=0"
+			}
+			return fmt.Sprintf("type=%d levels=%d opts=%d", c.ChannelType, len(c.Query), len(c.Options))
 		})
 	case "frame":
 		if unsafeFrame(vlib.UnHex(w[1])) {
